@@ -40,7 +40,9 @@ def step_st(draw, outcomes=None, cols=None, with_async=True, with_cleanup=False,
         step["o"] = u"<%s>" % draw(st.sampled_from(cols))
     else:
         step["o"] = draw(outcome_st(outcomes))
-    if with_async and step["o"] not in ("interrupt", "undefined", "convert") and \
+        if step["o"] == "convert" and draw(st.booleans()):
+            step["o"] = "convert_key"       # a type converter may raise anything (KeyError from a lookup table)
+    if with_async and step["o"] not in ("interrupt", "undefined", "convert", "convert_key") and \
             not step["o"].startswith("<") and draw(st.integers(0, 5)) == 0:
         step["a"] = True
     if with_cleanup:
@@ -85,7 +87,10 @@ def outline_st(draw, inherited=False, max_steps=3, outcomes=None, **kw):
         order = cols if draw(st.booleans()) else list(reversed(cols))
         rows = []
         for _ in range(nrows):
-            cell = {"x": PHRASE[draw(outcome_st(outcomes))],
+            o = draw(outcome_st(outcomes))
+            if o == "convert" and draw(st.booleans()):
+                o = "convert_key"
+            cell = {"x": PHRASE[o],
                     "t": draw(st.sampled_from(TAGS))}
             rows.append([cell[c] for c in order])
         examples.append({"tags": draw(tags_st(1)), "cols": list(order), "rows": rows,
